@@ -182,3 +182,16 @@ Proof.
   vm_compute. repeat split.
   exists 97, 98, [49], [55]. repeat split; discriminate.
 Qed.
+
+(* ---- tie to the Go source by translation of whole function bodies (gen/ImpGen.v) -------- *)
+From Bio.gen Require ImpGen.
+From Bio.Model Require GoSem.
+From Bio.Proofs Require ImpProofsG.
+
+(* extractSingleChar as translated from smtext.go (one character, "*" is align.Gap) is the
+   model's, for every string. *)
+Theorem C20_extract_single_char_is_source : forall s,
+  ImpGen.imp_smtext_extractSingleChar s
+  = match extract_single_char s with Ok b => GoSem.Ret (b, false) | _ => GoSem.Ret (0%N, true) end.
+Proof. exact ImpProofsG.imp_extractSingleChar. Qed.
+Print Assumptions C20_extract_single_char_is_source.
